@@ -49,6 +49,8 @@ def run(ctx):
         "Stride": 2 if q else 1, "Off": rnd.randrange(2) if q else 0,
         "MultiRoots": set(rnd.sample(range(1, 10), 1)) if q else set(range(1, 10)),
         "MultiMenu": set(rnd.sample(range(1, 10), 3)) if q else set(rnd.sample(range(1, 10), 4)),
+        "BigRoots": set(rnd.sample(range(5), 1)) if q else set(range(5)),
+        "BigN": 2 if q else 7,
         "ModelEvery": 257 if q else 131,
         "PredEvery": 13 if q else 5,
         "GridFaces": set(rnd.sample(range(6), 2)) if q else set(range(6)),
@@ -81,6 +83,7 @@ def run(ctx):
     covers = by.get("cover", [])
     one = [c for c in covers if c["kind"] == "one"]
     multi = [c for c in covers if c["kind"] == "multi"]
+    big = [c for c in covers if c["kind"] == "big"]
     total_evals = (len(one) * 2 + len(multi) * 2) * len(cfgs)
     obs_every = max(1, total_evals // (2500 if q else 30000))
     chunks = []
@@ -110,6 +113,12 @@ def run(ctx):
                        "bound": "root" if k % 2 == 0 else "cells", "obsevery": obs_every, "regions": ch})
         chunks.append({"op": "coverchunk", "cfgs": cfgs, "roots": faces, "impl": "cu", "bound": "root",
                        "obsevery": obs_every, "regions": ch})
+    for c in big:
+        # a region whose CellUnionBound is its own (large) normal form, and the real CellUnion
+        chunks.append({"op": "coverchunk", "cfgs": cfgs, "roots": faces, "impl": "disc", "bound": "cells",
+                       "obsevery": obs_every * 4, "regions": [c]})
+        chunks.append({"op": "coverchunk", "cfgs": cfgs, "roots": faces, "impl": "cu", "bound": "root",
+                       "obsevery": 0, "regions": [c]})
     rnd.shuffle(chunks)
     ctx.replay(chunks, timeout=3000)
 
